@@ -391,8 +391,10 @@ fn run_sched_once(ctx: &Ctx, s: &Sched, rep: &mut Report) -> Result<(), Violatio
     if optional_best == 0 && eng.stderr_lines().iter().any(|e| e.line.contains("already running")) {
         return Err(fail("not-dropped", "not-dropped/go-refused".into(), "the engine refused a go ('Search is already running') although every go was sent after the previous bestmove".into(), &eng));
     }
+    let cpu_end = eng.cpu_ms();
     if !eng.ready(Duration::from_secs(3) + slack) {
-        return Err(fail("readyok", "readyok/missing/end".into(), "no readyok at the end of the schedule".into(), &eng));
+        let sv = if eng.starved(cpu_end, Duration::from_secs(3)) { "/starved" } else { "" };
+        return Err(fail("readyok", format!("readyok/missing/end{sv}"), "no readyok at the end of the schedule".into(), &eng));
     }
     eng.settle(Duration::from_millis(20));
     let n_best = eng.stdout_lines().iter().filter(|e| e.line.starts_with("bestmove")).count();
@@ -495,6 +497,26 @@ pub fn fixed_schedules() -> Vec<Sched> {
 /// own polling get hundreds of chances.  Positions include capture-saturated ones, where a
 /// stop is only prompt if it is polled inside quiescence.
 pub fn stop_storm(ctx: &Ctx, plan: &[(u16, u16, u16)], corp: &corpus::Corpus, rep: &mut Report) -> Result<(), Violation> {
+    // timeouts while the engine (or the harness) was kept from running are retried, see run_sched
+    let mut starved = 0;
+    loop {
+        let mut scratch = Report::new();
+        let r = stop_storm_once(ctx, plan, corp, if starved == 0 { &mut *rep } else { &mut scratch });
+        match r {
+            Err(v) if v.sig.ends_with("/starved") => {
+                starved += 1;
+                rep.class("timeout-while-engine-starved-of-cpu(retried; not a violation)");
+                if starved >= 3 {
+                    rep.infra_errors.push(format!("inconclusive: the engine process was starved of CPU in three attempts ({})", v.detail));
+                    return Ok(());
+                }
+            }
+            other => return other,
+        }
+    }
+}
+
+fn stop_storm_once(ctx: &Ctx, plan: &[(u16, u16, u16)], corp: &corpus::Corpus, rep: &mut Report) -> Result<(), Violation> {
     let mut eng = match Engine::spawn(&ctx.engine, &[]) {
         Ok(e) => e,
         Err(e) => {
@@ -530,6 +552,7 @@ pub fn stop_storm(ctx: &Ctx, plan: &[(u16, u16, u16)], corp: &corpus::Corpus, re
         let fen = pos.to_fen();
         script.push(json!({"fen": fen, "go": go, "delay_us": us}));
         eng.send(&format!("position fen {fen}"));
+        let cpu0 = eng.cpu_ms();
         eng.send(go);
         if us > 0 {
             std::thread::sleep(Duration::from_micros(us));
@@ -541,7 +564,8 @@ pub fn stop_storm(ctx: &Ctx, plan: &[(u16, u16, u16)], corp: &corpus::Corpus, re
         if !ok {
             let refused = eng.stderr_lines().iter().any(|e| e.line.contains("already running"));
             let kind = if refused { "go-refused" } else { "stop-lost-or-late" };
-            let cls = format!("{}/{}", go.split_whitespace().nth(1).unwrap_or(""), if heavy { "capture-saturated" } else { "ordinary" });
+            let sv = if !refused && eng.starved(cpu0, Duration::from_secs(2)) { "/starved" } else { "" };
+            let cls = format!("{}/{}{sv}", go.split_whitespace().nth(1).unwrap_or(""), if heavy { "capture-saturated" } else { "ordinary" });
             return Err(Violation::new(
                 "one-bestmove",
                 &format!("one-bestmove/{kind}/storm/{cls}"),
@@ -557,8 +581,10 @@ pub fn stop_storm(ctx: &Ctx, plan: &[(u16, u16, u16)], corp: &corpus::Corpus, re
         rep.class(&format!("storm:{}", go.split_whitespace().nth(1).unwrap_or("")));
         rep.nontrivial(o::hash_str(&format!("storm|{fen}|{go}|{us}")));
     }
+    let cpu1 = eng.cpu_ms();
     if !eng.ready(Duration::from_secs(3)) {
-        return Err(Violation::new("readyok", "readyok/missing/storm-end".into(), "no readyok after the stop storm".to_string(), json!({"storm": script})));
+        let sv = if eng.starved(cpu1, Duration::from_secs(3)) { "/starved" } else { "" };
+        return Err(Violation::new("readyok", &format!("readyok/missing/storm-end{sv}"), "no readyok after the stop storm".to_string(), json!({"storm": script})));
     }
     eng.send("quit");
     let _ = eng.wait_exit(Duration::from_secs(2));
